@@ -413,7 +413,9 @@ def split_uri(uri):
     else:
         try:
             scheme, netloc, path, query, fragment = parse.urlsplit(uri)
-        except UnicodeError:
+        except ValueError:
+            # UnicodeError (a ValueError) as well as what urlsplit raises for
+            # a malformed authority ("Invalid IPv6 URL", ...)
             raise ParsingError("Bad URI")
 
     return (
